@@ -110,6 +110,7 @@ type Site struct {
 	Asserts     []*Clause
 	MayBeEmpty  bool
 	AssumeAfter []*Clause // assumed about the call's result (stated facts about what lies outside the code)
+	Covers      []*Clause // the matched instruction must be reachable in a state where the clause holds
 	Lets        []*Clause
 	Entry       []*Clause // ghost initialisation assumed at entry of the functions swept
 	Tags        []string
@@ -746,12 +747,18 @@ func (cs *ContractSet) parseFile(file, pkgPath string) error {
 					if strings.TrimSpace(rest) == "0" {
 						curSite.MayBeEmpty = true // a sweep ("every such instruction ..."): holds when there is none
 					}
-				case "assert", "let", "entry", "assume-after":
-					c, err := mk(word, rest, l)
+				case "assert", "let", "entry", "assume-after", "cover":
+					kind := word
+					if kind == "cover" {
+						kind = "assert"
+					}
+					c, err := mk(kind, rest, l)
 					if err != nil {
 						return err
 					}
-					if word == "assume-after" {
+					if word == "cover" {
+						curSite.Covers = append(curSite.Covers, c)
+					} else if word == "assume-after" {
 						curSite.AssumeAfter = append(curSite.AssumeAfter, c)
 						cs.Scan["assume"]++
 					} else if word == "let" {
